@@ -96,11 +96,27 @@ func (w *WAL) Pending() []WALEvent {
 	return out
 }
 
-// Purge commits (unrecorded) every pending event; used when restoring a checkpoint.
-func (w *WAL) Purge() {
+// pendingKeys returns the internal numbers of the pending events.
+func (w *WAL) pendingKeys() map[int]bool {
 	w.mu.Lock()
-	ps := w.pending
-	w.pending = map[int]*pendingEv{}
+	defer w.mu.Unlock()
+	out := map[int]bool{}
+	for n := range w.pending {
+		out[n] = true
+	}
+	return out
+}
+
+// Purge commits (unrecorded) every pending event not listed in keep; used when restoring a checkpoint.
+func (w *WAL) Purge(keep map[int]bool) {
+	w.mu.Lock()
+	ps := []*pendingEv{}
+	for n, p := range w.pending {
+		if !keep[n] {
+			ps = append(ps, p)
+			delete(w.pending, n)
+		}
+	}
 	w.mu.Unlock()
 	for _, p := range ps {
 		_ = p.commit()
